@@ -84,6 +84,7 @@ var c20SRecords = []struct {
 type c20SCounts struct {
 	s, t, l [c20SNPairs]int
 	opened  int // "[conn ...] opened" records (harness synchronisation only)
+	rtmpRdg int // "[RTMP] [conn ...] is reading from path" records (harness synchronisation only)
 }
 
 // c20SScan groups the records of the log by entity and checks every projected word.
@@ -114,6 +115,10 @@ func c20SScan(logText string, sides [c20SNPairs]int, complete bool) (c20SCounts,
 		key, rest := strings.TrimSpace(m[1]), m[2]
 		if rest == "opened" && strings.Contains(key, "[conn ") {
 			total.opened++
+			continue
+		}
+		if strings.HasPrefix(key, "[RTMP]") && strings.HasPrefix(rest, "is reading from path") {
+			total.rtmpRdg++
 			continue
 		}
 		for _, r := range c20SRecords {
@@ -312,6 +317,7 @@ func TestVerifC20Sessions(t *testing.T) {
 		// ---- model
 		var (
 			conns, readOpens, readCloses, availOpens, availCloses int
+			rtmpReads                                             int
 			pubs                                                  = map[string]*c20Client{}
 			kickedWhileReading, pausedCycle, shutdownOpen         bool
 			sawRTMPRead, sawRTMPPub, sawRaw, sawReplace           bool
@@ -336,7 +342,9 @@ func TestVerifC20Sessions(t *testing.T) {
 					what      string
 					got, want int
 				}
-				cs := []cmp{{"connections accepted", c.opened, conns}}
+				// the first two are synchronisation: an RTMP client is told that it may play before the server
+				// reaches the point where it starts the read hook
+				cs := []cmp{{"connections accepted", c.opened, conns}, {"RTMP readers reading", c.rtmpRdg, rtmpReads}}
 				if hasStart(c20SConnect) {
 					cs = append(cs, cmp{"runOnConnect started", c.s[c20SConnect], conns})
 				}
@@ -587,6 +595,7 @@ func TestVerifC20Sessions(t *testing.T) {
 					c.mc = mc
 					c.state = "play"
 					readOpens++
+					rtmpReads++
 				}
 				await("after rtmpRead", false)
 			},
